@@ -310,22 +310,28 @@ Proof. exact binding_then_download_from_cache. Qed.
 Print Assumptions C18_binding_then_download_from_cache.
 
 Theorem C18_download_streams_when_unread : forall cfg b r,
-  c_save cfg = true -> r_present r = true -> r_cached r = false ->
+  c_save cfg = true -> r_present r = true -> r_cached r = false -> r_err r = None ->
   handle_download cfg b r =
   match b_read b with Some e => Some e | None => match b_write b with Some e => Some e | None => b_close b end end.
 Proof. exact download_streams_when_unread. Qed.
 Print Assumptions C18_download_streams_when_unread.
 
+Theorem C18_download_keeps_earlier_error : forall cfg b r e,
+  r_cached r = false -> r_err r = Some e -> c_save cfg = true -> r_present r = true ->
+  handle_download cfg b r = None.
+Proof. exact download_keeps_earlier_error. Qed.
+Print Assumptions C18_download_keeps_earlier_error.
+
 (* closing the output: a failed copy keeps its error for EVERY close outcome; a failed close fails
    an otherwise good download *)
 Theorem C18_copy_error_kept_for_every_close : forall cfg b r e c,
-  c_save cfg = true -> r_present r = true -> copy_result b r = Some e ->
+  c_save cfg = true -> r_present r = true -> (r_cached r = true \/ r_err r = None) -> copy_result b r = Some e ->
   handle_download cfg (with_close c b) r = Some e.
 Proof. exact copy_error_kept_for_every_close. Qed.
 Print Assumptions C18_copy_error_kept_for_every_close.
 
 Theorem C18_close_error_fails_download : forall cfg b r c,
-  c_save cfg = true -> r_present r = true -> copy_result b r = None ->
+  c_save cfg = true -> r_present r = true -> (r_cached r = true \/ r_err r = None) -> copy_result b r = None ->
   handle_download cfg (with_close c b) r = c.
 Proof. exact close_error_fails_download. Qed.
 Print Assumptions C18_close_error_fails_download.
